@@ -22,7 +22,14 @@ import (
 	"github.com/yuin/goldmark/util"
 )
 
-const repoRoot = "/repo"
+// repoRoot is /repo; VERIF_REPO points a background run at a snapshot of it (the registered
+// commands never set it).
+var repoRoot = func() string {
+	if r := os.Getenv("VERIF_REPO"); r != "" {
+		return r
+	}
+	return "/repo"
+}()
 
 // ---------------------------------------------------------------------------------
 // configurations
